@@ -1,7 +1,131 @@
 //! E5: bounded-exhaustive input enumeration of pure components (C25–C35).
+pub mod envelope;
+pub mod properties;
+pub mod runestone;
+pub mod storage;
 pub mod varint;
 
 /// Runs `f` catching panics; a panic is reported as `Err(message)`.
+#[allow(dead_code)]
 pub fn total<R>(f: impl FnOnce() -> R) -> Result<R, String> {
   crate::util::catch(f)
+}
+
+use {
+  crate::evidence::Report,
+  serde_json::{Value, json},
+  std::collections::BTreeMap,
+};
+
+pub type Viol = (String, String, Value);
+
+/// Per-work-item statistics: evaluation count, outcome histogram, violations
+/// (at most three kept per class).
+#[derive(Default)]
+pub struct Stats {
+  pub evaluations: u64,
+  pub hist: BTreeMap<String, u64>,
+  pub viol: Vec<Viol>,
+  pub viol_per_class: BTreeMap<String, u32>,
+}
+
+impl Stats {
+  pub fn bump(&mut self, key: &str) {
+    *self.hist.entry(key.into()).or_insert(0) += 1;
+  }
+
+  pub fn add(&mut self, key: &str, n: u64) {
+    *self.hist.entry(key.into()).or_insert(0) += n;
+  }
+
+  pub fn violation(&mut self, class: String, what: String, replay: Value) {
+    let n = self.viol_per_class.entry(class.clone()).or_insert(0);
+    *n += 1;
+    if *n <= 3 {
+      self.viol.push((class, what, replay));
+    }
+  }
+
+  pub fn merge(&mut self, other: Stats) {
+    self.evaluations += other.evaluations;
+    for (k, v) in other.hist {
+      *self.hist.entry(k).or_insert(0) += v;
+    }
+    for (c, w, r) in other.viol {
+      self.violation(c, w, r);
+    }
+  }
+}
+
+/// Accumulates the families of one run.
+#[derive(Default)]
+pub struct Acc {
+  pub total: Stats,
+  pub capped: bool,
+  pub families: Vec<(String, u64)>,
+}
+
+impl Acc {
+  /// Adds the results of one `par_map` family; `capped` = the time budget ended it early.
+  pub fn absorb(&mut self, name: &str, results: Vec<Option<Stats>>, capped: bool) {
+    let mut n = 0;
+    for s in results.into_iter().flatten() {
+      n += s.evaluations;
+      self.total.merge(s);
+    }
+    self.families.push((
+      format!("{name}{}", if capped { " (capped)" } else { "" }),
+      n,
+    ));
+    if capped {
+      self.capped = true;
+    }
+  }
+
+  pub fn absorb_one(&mut self, name: &str, stats: Stats) {
+    self.families.push((name.into(), stats.evaluations));
+    self.total.merge(stats);
+  }
+
+  /// Violations, evaluation count, outcome histogram, per-family counts, `exhaustive`.
+  pub fn report_into(&mut self, report: &mut Report) {
+    for (c, w, r) in std::mem::take(&mut self.total.viol) {
+      report.violation(c, w, r);
+    }
+    report.set("evaluations", self.total.evaluations);
+    for (k, v) in &self.total.hist {
+      report.set(&format!("outcome/{k}"), *v);
+    }
+    report.set(
+      "families",
+      Value::Array(
+        self
+          .families
+          .iter()
+          .map(|(k, v)| json!({"family": k, "evaluations": v}))
+          .collect(),
+      ),
+    );
+    report.set("exhaustive", !self.capped);
+  }
+}
+
+/// Calls `f` with every sequence over 0..base of length `len` (odometer order).
+pub fn for_each_seq(base: usize, len: usize, mut f: impl FnMut(&[usize])) {
+  let mut idx = vec![0usize; len];
+  loop {
+    f(&idx);
+    let mut k = len;
+    loop {
+      if k == 0 {
+        return;
+      }
+      k -= 1;
+      idx[k] += 1;
+      if idx[k] < base {
+        break;
+      }
+      idx[k] = 0;
+    }
+  }
 }
